@@ -41,12 +41,13 @@ type RunCfg struct {
 }
 
 type Chain struct {
-	F   *Fixture
-	Ctx sdk.Context
-	C   *l1.Conc
-	Cfg RunCfg
-	V   *ValState  // only for validator-set runs
-	O   *OracleCfg // only for oracle runs
+	NoGasProbe bool // skip the differential gas measurement of deposits (determinism replicas)
+	F          *Fixture
+	Ctx        sdk.Context
+	C          *l1.Conc
+	Cfg        RunCfg
+	V          *ValState  // only for validator-set runs
+	O          *OracleCfg // only for oracle runs
 }
 
 var hookGas = map[string]uint64{"ample": 1_000_000, "tiny": 500, "zero": 0}
@@ -148,7 +149,7 @@ func NewChain(c *l1.Conc, cfg RunCfg) *Chain {
 
 func (ch *Chain) Fork() *Chain {
 	cc, _ := ch.Ctx.CacheContext()
-	return &Chain{F: ch.F, Ctx: cc, C: ch.C, Cfg: ch.Cfg, V: ch.V.clone(), O: ch.O}
+	return &Chain{F: ch.F, Ctx: cc, C: ch.C, Cfg: ch.Cfg, V: ch.V.clone(), O: ch.O, NoGasProbe: ch.NoGasProbe}
 }
 
 // SpecFork is a branch as a node's speculative execution makes it (optimistic execution, a proposal that is later
@@ -418,7 +419,10 @@ func (ch *Chain) Exec(e M) Outcome {
 		case "sendPanic":
 			*f.Fault = Fault{Method: "SendCoinsFromModuleToAccount", Panic: true, Armed: true}
 		}
-		hookGasOK := ch.hookGasWithinBound(e)
+		hookGasOK := true
+		if !ch.NoGasProbe { // replicas (C18) execute a history exactly once: no measuring runs before the real one
+			hookGasOK = ch.hookGasWithinBound(e)
+		}
 		r := Deliver(f, ch.Ctx, ch.toMsg(e))
 		*f.Fault = Fault{}
 		if !r.OK {
